@@ -82,6 +82,10 @@ def classify(ret, exc) -> Tuple[str, Optional[str]]:
         return "FAIL", _short(str(ret[1]))
     if isinstance(ret, str) and ret in (PASS, SKIP, TRUNC):
         return ret, None
+    if isinstance(ret, tuple) and len(ret) == 2 and ret[0] == "INCONCLUSIVE":
+        # the harness cannot judge this path (e.g. the code under test uses an environment API the stub does not
+        # model): neither a pass nor a violation -- the whole check answers exit 2
+        return "INCONCLUSIVE", _short(str(ret[1]))
     return "FAIL", "harness returned non-verdict: " + _short(repr(ret))
 
 
@@ -199,6 +203,9 @@ def explore_shard(
                         raise IgnoreAttempt("filtered")
                     with ResumedTracing():
                         verdict, detail = classify(ret, user_exc)
+                    if verdict == "INCONCLUSIVE":
+                        res["error"] = "harness inconclusive: " + str(detail)
+                        break
                     res["paths"] += 1
                     res[verdict] += 1
                     res["decisions"] += len(space.choices_made)
